@@ -244,8 +244,12 @@ impl DocsUrlGenerator {
 
         let mut elements = rust_link.path.elements.iter().peekable();
 
-        let module_depth = rust_link.path.elements.len()
-            - match rust_link.typ {
+        // A path with fewer segments than its item type needs has no module part (and its link simply ends early)
+        let module_depth = rust_link
+            .path
+            .elements
+            .len()
+            .saturating_sub(match rust_link.typ {
                 Mod => 0,
                 Struct | Enum | Trait | Fn | Macro | Constant | Typedef => 1,
                 FnInEnum
@@ -262,7 +266,7 @@ impl DocsUrlGenerator {
                 | AssociatedConstantInStruct
                 | AssociatedConstantInTrait => 2,
                 EnumVariantField => 3,
-            };
+            });
 
         for _ in 0..module_depth {
             r.push_str(elements.next().unwrap().as_str());
@@ -302,38 +306,28 @@ impl DocsUrlGenerator {
 
         r.push_str(".html");
 
-        match rust_link.typ {
-            FnInStruct | FnInEnum | DefaultFnInTrait | FnInTypedef => {
-                r.push_str("#method.");
-                r.push_str(elements.next().unwrap().as_str());
-            }
+        let anchor = match rust_link.typ {
+            FnInStruct | FnInEnum | DefaultFnInTrait | FnInTypedef => "#method.",
             AssociatedTypeInStruct | AssociatedTypeInEnum | AssociatedTypeInTrait => {
-                r.push_str("#associatedtype.");
-                r.push_str(elements.next().unwrap().as_str());
+                "#associatedtype."
             }
             AssociatedConstantInStruct | AssociatedConstantInEnum | AssociatedConstantInTrait => {
-                r.push_str("#associatedconstant.");
-                r.push_str(elements.next().unwrap().as_str());
+                "#associatedconstant."
             }
-            FnInTrait => {
-                r.push_str("#tymethod.");
-                r.push_str(elements.next().unwrap().as_str());
+            FnInTrait => "#tymethod.",
+            EnumVariant | EnumVariantField => "#variant.",
+            StructField => "#structfield.",
+            Struct | Enum | Trait | Fn | Mod | Constant | Macro | Typedef => return r,
+        };
+        if let Some(member) = elements.next() {
+            r.push_str(anchor);
+            r.push_str(member.as_str());
+            if rust_link.typ == EnumVariantField {
+                if let Some(field) = elements.next() {
+                    r.push_str(".field.");
+                    r.push_str(field.as_str());
+                }
             }
-            EnumVariant => {
-                r.push_str("#variant.");
-                r.push_str(elements.next().unwrap().as_str());
-            }
-            StructField => {
-                r.push_str("#structfield.");
-                r.push_str(elements.next().unwrap().as_str());
-            }
-            EnumVariantField => {
-                r.push_str("#variant.");
-                r.push_str(elements.next().unwrap().as_str());
-                r.push_str(".field.");
-                r.push_str(elements.next().unwrap().as_str());
-            }
-            Struct | Enum | Trait | Fn | Mod | Constant | Macro | Typedef => {}
         }
         r
     }
